@@ -235,6 +235,12 @@ func cmdReplay(args []string) int {
 			return 2
 		}
 	}
+	if hs := findSpec(&rec); hs != nil && hs.spec.Gen == "pipeline" {
+		if _, err := generatePipelineHarness(); err != nil {
+			fmt.Fprintln(os.Stderr, err)
+			return 2
+		}
+	}
 	kind, ok, note := replayNative(&rec)
 	fmt.Printf("replay kind=%s reproduced=%v: %s\n", kind, ok, note)
 	if ok {
